@@ -465,6 +465,9 @@ def default_profile():
         p_stdin=0.07,
         p_devnull=0.0,
         p_case_name=0.0,
+        same_name_without_demux=False,  # (C20) same-named adapters also without {name} in the output
+        p_nonascii_name=0.0,  # (C06) an adapter name with a non-ASCII letter (it reaches the info file and the reports)
+        p_giant=0.0,  # more than 65536 short reads
         p_qbase64=0.0,  # (C04, C06, C12: no per-read model of the quality options there)
         p_quiet=0.0,  # (checks that do not read the text report)
         p_debug=0.0,  # (checks that do not compare standard output)  # (C15) two adapter names that differ only in case  # (C04, C05, C06) redirect files sent to /dev/null
@@ -697,20 +700,24 @@ def gen_case(rng, profile=None):
         if demux == "combinatorial":
             choices = ["discard_untrimmed"]
         untrimmed_mode = rng.choice(choices)
+    # where the placeholder stands in the file name: after a literal prefix, or first (with relative
+    # paths, see the 'relpaths' knob, it is then the first character of the whole template)
+    tpre = rng.choice(["dm_", "dm_", "dm_", "", "", "s.1-"])
     if demux == "normal":
         ext = rng.choice(OUT_EXT_FASTQ if fastq else OUT_EXT_FASTA) + rng.choice(OC)
         if paired:
             twice = "_{name}" if rng.random() < 0.12 else ""
-            outs.append(["-o", f"{SIMFS}dm_{{name}}{twice}_1{ext}"])
-            outs.append(["-p", f"{SIMFS}dm_{{name}}{twice}_2{ext}"])
+            outs.append(["-o", f"{SIMFS}{tpre}{{name}}{twice}_1{ext}"])
+            outs.append(["-p", f"{SIMFS}{tpre}{{name}}{twice}_2{ext}"])
         else:
             twice = "_{name}" if rng.random() < 0.12 else ""
-            outs.append(["-o", f"{SIMFS}dm_{{name}}{twice}{ext}"])
+            outs.append(["-o", f"{SIMFS}{tpre}{{name}}{twice}{ext}"])
     elif demux == "combinatorial":
         ext = rng.choice(OUT_EXT_FASTQ if fastq else OUT_EXT_FASTA) + rng.choice(OC)
         twice = "_{name2}{name1}" if rng.random() < 0.12 else ""
-        outs.append(["-o", f"{SIMFS}cd_{{name1}}-{{name2}}{twice}_1{ext}"])
-        outs.append(["-p", f"{SIMFS}cd_{{name1}}-{{name2}}{twice}_2{ext}"])
+        tpre = tpre.replace("dm_", "cd_")
+        outs.append(["-o", f"{SIMFS}{tpre}{{name1}}-{{name2}}{twice}_1{ext}"])
+        outs.append(["-p", f"{SIMFS}{tpre}{{name1}}-{{name2}}{twice}_2{ext}"])
     else:
         if paired:
             if rng.random() < P["p_interleaved_out"]:
@@ -779,11 +786,17 @@ def gen_case(rng, profile=None):
     n = 0 if r < 0.03 else (rng.randint(1, 3) if r < 0.1 else rng.randint(lo, hi))
     rb = rng.random()
     big = 2 if rb < P["p_huge"] else (1 if rb < P["p_huge"] + P["p_big"] else 0)
-    want_same_name = demux == "normal" and rng.random() < P["p_same_name"]
+    want_same_name = (demux == "normal" or (not demux and P["same_name_without_demux"])) and rng.random() < P["p_same_name"]
     if want_same_name and not big and rng.random() < 0.2:
         # names that share a file matter once the file is larger than the writers' buffers
         big = 1
-    if big:
+    if not big and rng.random() < P["p_giant"]:
+        big = 3
+    if big == 3:
+        # more reads than a 16-bit counter holds (and than any batch size in the code), kept short
+        n = rng.randint(66000, 72000)
+        P = dict(P, maxlen=24)
+    elif big:
         # a few large inputs per batch (hundreds of KiB; rarely several MiB with chunks of
         # 0.3-1 MiB), so that size-dependent paths (buffer re-use thresholds, pipe-sized
         # messages, compressor block sizes) run at all
@@ -811,8 +824,9 @@ def gen_case(rng, profile=None):
                 if r_[qi]:
                     r_[qi] = "".join(chr(min(126, ord(c) + 31)) for c in r_[qi])
     r_ = rng.random()
-    if r_ < P["p_quiet"] and not any(g[0] == "--report" for g in outs):
-        outs.append(["--quiet"])
+    if r_ < P["p_quiet"]:
+        if not any(g[0] == "--report" for g in outs):
+            outs.append(["--quiet"])
     elif r_ < P["p_quiet"] + P["p_debug"]:
         outs.append(["--debug"])
     inp = gen_input(rng, paired, fastq, P["in_containers"], p_interleaved_fasta=P["p_interleaved_fasta"],
@@ -859,6 +873,14 @@ def gen_case(rng, profile=None):
                 if g[0] in ("-a", "-g", "-b") and g[1].startswith(old + "="):
                     g[1] = new + "=" + g[1][len(old) + 1 :]
             names1[k_] = new
+    if (not demux and not aux_files and names1 and names1[0] is not None and rng.random() < P["p_nonascii_name"]
+            and not any(g[0] in ("-x", "-y", "--rename") for g in opts)):
+        # a sample name as people write it: it ends up in the info file and in the reports
+        old, new = names1[0], rng.choice(["adapt\u00e9", "\u00b5RNA", "Stra\u00dfe1", "\u03b1-tag"])
+        for g in opts:
+            if g[0] in ("-a", "-g", "-b") and g[1].startswith(old + "="):
+                g[1] = new + "=" + g[1][len(old) + 1 :]
+        names1[0] = new
     if demux == "normal" and names1 and rng.random() < P["p_unknown_name"] and (
         untrimmed_mode == "discard_untrimmed" or (untrimmed_mode == "untrimmed_output" and not paired)
     ):
@@ -957,7 +979,7 @@ def gen_knobs(rng, case, P=None):
         buf = max(floor, total + rng.randint(1, 100))
     if case.get("meta", {}).get("big"):
         buf = max(floor, total // (rng.randint(3, 9) if case["meta"]["big"] == 1 else rng.randint(3, 6)))
-        if case["meta"]["big"] == 2 and rng.random() < 0.4:
+        if case["meta"]["big"] in (2, 3) and rng.random() < 0.4:
             # everything in one or two chunks: more than 10000 reads (the progress batch size) per chunk
             buf = max(floor, total // rng.randint(1, 2) + 1000)
     workers = rng.randint(*P["workers"])
@@ -981,6 +1003,7 @@ def gen_knobs(rng, case, P=None):
     knobs["tty"] = e.random() < P["p_tty"]
     knobs["piped_exts"] = e.choice([[], [".xz", ".zst"], [".xz", ".zst"], [".gz", ".bz2", ".xz", ".zst"]])
     knobs["emfile_at"] = e.randint(1, 12) if e.random() < P["p_emfile"] else None
+    knobs["relpaths"] = e.random() < 0.3  # run in the data directory and name all files relative to it
     if case["input"].get("stdin"):
         knobs["stdin_kind"] = case["input"]["stdin"]
     return knobs
